@@ -293,6 +293,11 @@ def compare_export(got_text, want_rows):
                 return None        # an undefined row may legitimately vanish or stay: nothing more can be aligned
             continue
         if got[k] != cells:
+            if len(got) != len(want_rows):
+                # a vanished / extra line shifts everything below it: the cause may sit in an earlier row whose
+                # expected text happens to equal the next one (e.g. a hidden barline followed by the same barline)
+                for _, f2 in want_rows[:k]:
+                    feats = feats | f2
             return f'exported line {k + 1} is {got[k]}, expected {cells}', feats
     if len(got) > len(want_rows):
         return f'{len(got)} lines exported, {len(want_rows)} expected: extra {got[len(want_rows)]}', set()
